@@ -1338,8 +1338,11 @@ def gen_beep(node, code, codegen):
 @QvmCodeGen.generator_for(stmt.BloadStmt)
 def gen_bload(node, code, codegen):
     codegen.gen_code_for_node(node.filespec, code)
-    codegen.gen_code_for_node(node.offset, code)
-    gen_code_for_conv(expr.Type.LONG, node.offset, code, codegen)
+    if node.offset is None:
+        code.add(('push&', 0))
+    else:
+        codegen.gen_code_for_node(node.offset, code)
+        gen_code_for_conv(expr.Type.LONG, node.offset, code, codegen)
     code.add(('io', 'memory', 'bload'))
 
 
